@@ -1117,3 +1117,190 @@ _p.locals = dict(_p.locals, **{'$nomerge': True})
 _p.loops = {'L0': Loop(_reg_L0('_subscribers')), 'L1': Loop(_reg_L1('_subscribers'))}
 _p.on_dict_store = _store_hook('_subscribers')
 _p.calls = dict(_p.calls, **{'self.changed': _changed_with_path_facts('_subscribers')})
+
+
+# ------------------------------------------------------------------ the enumeration generators (allRegistrations / allSubscriptions)
+# ents(D, node, i, prefix)   what _allKeys yields for the sub-tree at `node` with i levels of keys still to go below the current
+#                            one: for every key k of the dict (in dict order) the pair (prefix + (k,), value) when i == 0,
+#                            else the entries of the child under prefix + (k,)
+ents = z3.Function('tree_entries', DS, Obj, Int, SeqO, SeqO)
+entsk = z3.Function('tree_entries_of_first_keys', DS, Obj, Int, SeqO, Int, SeqO)
+_pf = z3.Const('en_prefix', SeqO)
+_i3 = z3.Int('en_i')
+_k3 = z3.Int('en_k')
+
+
+def _entry(keyseq, value):
+    return box_seq(Concat(Unit(box_seq(keyseq)), Unit(value)))
+
+
+def _keys_of(D, node):
+    return dict_keys(z3.Select(D, node))
+
+
+_kk = _keys_of(_D, _n)[_k3]
+_child = z3.Select(z3.Select(_D, _n), _kk)
+reg.axiom('entsk-0', z3.ForAll([_D, _n, _i3, _pf], entsk(_D, _n, _i3, _pf, 0) == Empty(SeqO), patterns=[entsk(_D, _n, _i3, _pf, 0)]))
+reg.axiom('entsk-step', z3.ForAll([_D, _n, _i3, _pf, _k3], z3.Implies(
+    z3.And(0 <= _k3, _k3 < L(_keys_of(_D, _n))),
+    entsk(_D, _n, _i3, _pf, _k3 + 1) == Concat(entsk(_D, _n, _i3, _pf, _k3), z3.If(
+        _i3 == 0, Unit(_entry(Concat(_pf, Unit(_kk)), _child)), ents(_D, _child, _i3 - 1, Concat(_pf, Unit(_kk)))))),
+    patterns=[entsk(_D, _n, _i3, _pf, _k3 + 1)]))
+reg.axiom('ents-def', z3.ForAll([_D, _n, _i3, _pf], ents(_D, _n, _i3, _pf) == entsk(_D, _n, _i3, _pf, L(_keys_of(_D, _n))),
+                                patterns=[ents(_D, _n, _i3, _pf)]))
+
+
+def _entries_shaped(seq, keylen):
+    """every entry is a pair (key tuple of the given length, value)"""
+    j = z3.Int('es_j')
+    return ForAllP([j], z3.Implies(z3.And(0 <= j, j < L(seq)), z3.And(
+        is_seq(seq[j]), L(unbox_seq(seq[j])) == 2, is_seq(unbox_seq(seq[j])[0]), L(unbox_seq(unbox_seq(seq[j])[0])) == keylen)),
+        patterns=[seq[j]])
+
+
+def _ak_inv(c):
+    D = c.h('$dict')
+    y = c.l['$yield']
+    return [('yielded-the-entries-of-the-first-k-keys', SeqEq(y, entsk(D, c.a.components, c.a.i, c.a.parent_k, c.i))),
+            ('every-entry-is-a-pair-with-a-full-key', _entries_shaped(y, L(c.a.parent_k) + c.a.i + 1)),
+            ('nothing-changes', z3.And(c.h('$dict') == c.h0('$dict'), c.h('$list') == c.h0('$list')))]
+
+
+treewf = z3.Function('tree_of_dicts_down_to_the_leaf_level', DS, Obj, Int, z3.BoolSort())
+_kq = z3.Const('tw_k', Obj)
+reg.axiom('treewf-step', z3.ForAll([_D, _n, _i3], z3.Implies(_i3 >= 1, treewf(_D, _n, _i3) == z3.ForAll([_kq], z3.Implies(
+    z3.Select(z3.Select(_D, _n), _kq) != ABSENT,
+    z3.And(z3.Select(z3.Select(_D, _n), _kq) != NONE, treewf(_D, z3.Select(z3.Select(_D, _n), _kq), _i3 - 1))))),
+    patterns=[treewf(_D, _n, _i3)]))
+
+
+def _ak_tree(c):
+    """below the leaf level every value is a dict (tree of dicts; established by the mutators)"""
+    o, k = z3.Consts('at_o at_k', Obj)
+    return ('values-above-the-leaf-level-are-dicts', z3.Implies(c.a.i > 0, ForAllP([k], z3.Implies(
+        c.h('$dict')[c.a.components][k] != ABSENT, z3.And(is_dict(c.h('$dict')[c.a.components][k]), c.h('$dict')[c.a.components][k] != NONE)),
+        patterns=[c.h('$dict')[c.a.components][k]])))
+
+
+reg.add(Proc(
+    A + 'BaseAdapterRegistry._allKeys', [('cls', OBJ), ('components', DICT), ('i', INT), ('parent_k', SEQO)],
+    source='adapter.py:BaseAdapterRegistry._allKeys', result=SEQO, defaults={'parent_k': V(SEQO, Empty(SeqO))},
+    calls={'cls._allKeys': A + 'BaseAdapterRegistry._allKeys'}, locals={'v': OBJ},
+    requires=lambda c: [('levels', c.a.i >= 0), ('components-is-a-dict', c.a.components != NONE),
+                        ('tree-of-dicts-down-to-the-leaf-level', treewf(c.h('$dict'), c.a.components, c.a.i))],
+    ensures=lambda c: [('yields-the-entries-of-the-sub-tree-in-dict-order', SeqEq(c.res, ents(c.h('$dict'), c.a.components, c.a.i, c.a.parent_k))),
+                       ('every-entry-is-a-pair-with-a-full-key', _entries_shaped(c.res, L(c.a.parent_k) + c.a.i + 1)),
+                       ('pure', z3.And(c.h('$dict') == c.h0('$dict'), c.h('$list') == c.h0('$list')))],
+    loops={'L0': Loop(_ak_inv), 'L1': Loop(_ak_inv)},
+))
+
+
+# _all_entries(byorder): every entry of every per-order tree, reshaped to (required, provided, name, value)
+resh = z3.Function('entries_reshaped', SeqO, Int, Int, SeqO)           # the first m entries of E for order o, as 4-tuples
+allents = z3.Function('all_entries_of_first_orders', DS, SeqO, Int, SeqO)
+_E = z3.Const('re_E', SeqO)
+_o3, _m3 = z3.Ints('re_o re_m')
+_bo = z3.Const('re_byorder', SeqO)
+
+
+def _entry4(o, e):
+    keyseq = unbox_seq(unbox_seq(e)[0])
+    return box_seq(Concat(Unit(box_seq(Slice(keyseq, 0, o))), Unit(keyseq[o]), Unit(keyseq[o + 1]), Unit(unbox_seq(e)[1])))
+
+
+reg.axiom('resh-0', z3.ForAll([_E, _o3], resh(_E, _o3, 0) == Empty(SeqO), patterns=[resh(_E, _o3, 0)]))
+reg.axiom('resh-step', z3.ForAll([_E, _o3, _m3], z3.Implies(z3.And(0 <= _m3, _m3 < L(_E)),
+          resh(_E, _o3, _m3 + 1) == Concat(resh(_E, _o3, _m3), Unit(_entry4(_o3, _E[_m3])))), patterns=[resh(_E, _o3, _m3 + 1)]))
+reg.axiom('allents-0', z3.ForAll([_D, _bo], allents(_D, _bo, 0) == Empty(SeqO), patterns=[allents(_D, _bo, 0)]))
+_Eo = ents(_D, _bo[_o3], _o3 + 1, Empty(SeqO))
+reg.axiom('allents-step', z3.ForAll([_D, _bo, _o3], z3.Implies(z3.And(0 <= _o3, _o3 < L(_bo)),
+          allents(_D, _bo, _o3 + 1) == Concat(allents(_D, _bo, _o3), resh(_Eo, _o3, L(_Eo)))), patterns=[allents(_D, _bo, _o3 + 1)]))
+
+
+def _byorder_trees(c, seq):
+    j = z3.Int('bt_j')
+    return ('every-per-order-root-is-a-tree-of-dicts-of-that-depth', ForAllP([j], z3.Implies(z3.And(0 <= j, j < L(seq)), z3.And(
+        seq[j] != NONE, treewf(c.h('$dict'), seq[j], j + 1))), patterns=[seq[j]]))
+
+
+def _ae_L0(c):
+    seq = c.h0('$list')[c.a.byorder]
+    return [('index-in-range', c.i <= L(seq)),
+            ('yielded-the-entries-of-the-first-i-orders', SeqEq(c.l['$yield'], allents(c.h0('$dict'), seq, c.i))),
+            ('nothing-changes', z3.And(c.h('$dict') == c.h0('$dict'), c.h('$list') == c.h0('$list')))]
+
+
+def _ae_L00(c):
+    seq = c.h0('$list')[c.a.byorder]
+    o = c.l['$i_L0']
+    E = ents(c.h0('$dict'), seq[o], o + 1, Empty(SeqO))
+    return [('yielded-the-earlier-orders-and-the-first-j-entries-of-this-one',
+             SeqEq(c.l['$yield'], Concat(allents(c.h0('$dict'), seq, o), resh(E, o, c.i)))),
+            ('nothing-changes', z3.And(c.h('$dict') == c.h0('$dict'), c.h('$list') == c.h0('$list')))]
+
+
+reg.add(Proc(
+    A + 'BaseAdapterRegistry._all_entries', [('self', OBJ), ('byorder', LISTO)], source='adapter.py:BaseAdapterRegistry._all_entries',
+    result=SEQO, calls={'self._allKeys': A + 'BaseAdapterRegistry._allKeys'}, locals={'key': SEQO, 'components': DICT},
+    requires=lambda c: [_byorder_trees(c, c.h('$list')[c.a.byorder])],
+    ensures=lambda c: [('yields-every-entry-of-every-order-as-required-provided-name-value', SeqEq(
+        c.res, allents(c.h('$dict'), c.h('$list')[c.a.byorder], L(c.h('$list')[c.a.byorder])))),
+        ('pure', z3.And(c.h('$dict') == c.h0('$dict'), c.h('$list') == c.h0('$list')))],
+    loops={'L0': Loop(_ae_L0), 'L0.0': Loop(_ae_L00)},
+))
+
+
+reg.add(Proc(
+    A + 'BaseAdapterRegistry.allRegistrations', [('self', OBJ)], source='adapter.py:BaseAdapterRegistry.allRegistrations', result=SEQO,
+    calls={'self._all_entries': A + 'BaseAdapterRegistry._all_entries'},
+    requires=lambda c: [_byorder_trees(c, c.h('$list')[c.h('_adapters')[c.a.self]])],
+    ensures=lambda c: [('yields-every-entry-of-the-adapter-trees', SeqEq(c.res, allents(
+        c.h('$dict'), c.h('$list')[c.h('_adapters')[c.a.self]], L(c.h('$list')[c.h('_adapters')[c.a.self]])))),
+        ('pure', z3.And(c.h('$dict') == c.h0('$dict'), c.h('$list') == c.h0('$list')))],
+))
+
+# allSubscriptions: every subscriber of every leaf, in leaf order
+expand = z3.Function('subscribers_of_entry', Obj, Int, SeqO)          # (required, provided, v) for the first k subscribers of a 4-entry
+subsall = z3.Function('subscriptions_of_first_entries', SeqO, Int, SeqO)
+_e4 = z3.Const('sx_e', Obj)
+_k4 = z3.Int('sx_k')
+_E4 = z3.Const('sx_E', SeqO)
+
+
+def _leaf_of(e):
+    return unbox_seq(unbox_seq(e)[3])
+
+
+reg.axiom('expand-0', z3.ForAll([_e4], expand(_e4, 0) == Empty(SeqO), patterns=[expand(_e4, 0)]))
+reg.axiom('expand-step', z3.ForAll([_e4, _k4], z3.Implies(z3.And(0 <= _k4, _k4 < L(_leaf_of(_e4))), expand(_e4, _k4 + 1) == Concat(
+    expand(_e4, _k4), Unit(box_seq(Concat(Unit(unbox_seq(_e4)[0]), Unit(unbox_seq(_e4)[1]), Unit(_leaf_of(_e4)[_k4])))))),
+    patterns=[expand(_e4, _k4 + 1)]))
+reg.axiom('subsall-0', z3.ForAll([_E4], subsall(_E4, 0) == Empty(SeqO), patterns=[subsall(_E4, 0)]))
+reg.axiom('subsall-step', z3.ForAll([_E4, _k4], z3.Implies(z3.And(0 <= _k4, _k4 < L(_E4)), subsall(_E4, _k4 + 1) == Concat(
+    subsall(_E4, _k4), expand(_E4[_k4], L(_leaf_of(_E4[_k4]))))), patterns=[subsall(_E4, _k4 + 1)]))
+
+
+def _all_sub_entries(c):
+    return allents(c.h0('$dict'), c.h0('$list')[c.h0('_subscribers')[c.a.self]], L(c.h0('$list')[c.h0('_subscribers')[c.a.self]]))
+
+
+def _as_shape(c):
+    """every entry of the subscriber trees is a 4-tuple whose value is a tuple of subscribers (leaves are tuples)"""
+    E = allents(c.h('$dict'), c.h('$list')[c.h('_subscribers')[c.a.self]], L(c.h('$list')[c.h('_subscribers')[c.a.self]]))
+    j = z3.Int('as_j')
+    return ('entries-are-4-tuples-with-tuple-leaves', ForAllP([j], z3.Implies(z3.And(0 <= j, j < L(E)), z3.And(
+        is_seq(E[j]), L(unbox_seq(E[j])) == 4, is_seq(unbox_seq(E[j])[3]))), patterns=[E[j]]))
+
+
+reg.add(Proc(
+    A + 'BaseAdapterRegistry.allSubscriptions', [('self', OBJ)], source='adapter.py:BaseAdapterRegistry.allSubscriptions', result=SEQO,
+    calls={'self._all_entries': A + 'BaseAdapterRegistry._all_entries'}, locals={'value': SEQO},
+    requires=lambda c: [_byorder_trees(c, c.h('$list')[c.h('_subscribers')[c.a.self]]), _as_shape(c)],
+    ensures=lambda c: [('yields-every-subscriber-of-every-leaf-in-order', SeqEq(c.res, subsall(_all_sub_entries(c), L(_all_sub_entries(c))))),
+                       ('pure', z3.And(c.h('$dict') == c.h0('$dict'), c.h('$list') == c.h0('$list')))],
+    loops={'L0': Loop(lambda c: [('yielded-the-subscribers-of-the-first-i-entries', SeqEq(c.l['$yield'], subsall(_all_sub_entries(c), c.i))),
+                                 ('nothing-changes', z3.And(c.h('$dict') == c.h0('$dict'), c.h('$list') == c.h0('$list')))]),
+           'L0.0': Loop(lambda c: [('yielded-the-earlier-entries-and-the-first-j-subscribers-of-this-one', SeqEq(
+               c.l['$yield'], Concat(subsall(_all_sub_entries(c), c.l['$i_L0']), expand(_all_sub_entries(c)[c.l['$i_L0']], c.i)))),
+               ('nothing-changes', z3.And(c.h('$dict') == c.h0('$dict'), c.h('$list') == c.h0('$list')))])},
+))
